@@ -176,7 +176,8 @@ class HttpParser:
         # If the request is of type chunked encoding
         # add post data as chunk
         if self.is_chunked_encoded:
-            body = ChunkParser.to_chunks(body)
+            # Like the body of a parsed chunked message, the new body is kept
+            # decoded.  It is chunk encoded when the message is rebuilt.
             self.del_header(b'content-length')
         else:
             self.add_header(
